@@ -1174,19 +1174,19 @@ package keyvalue
 //@   loop 1 modifies mapOf(ms(fs).records), held(ms(fs).mu), world()
 //@   loop 1 invariant "inv" fsMem(fs) && VP(oldname) && VP(newname) && rangeindex >= -1 && rangeindex < max(len(files), 1) && (len(files) > 0 || rangeindex == -1) && world() == old(world())
 //@   ensures "gate" [C04 C05] implies(!VP(oldname) || !VP(newname), linkErr(err, oldname, newname) && errIs(err, hackpadfs.ErrInvalid) && memSame(fs) && world() == old(world()))
-//@   ensures "root" [C03] implies(rnValid(oldname, newname) && oldname == "." && old(kvHas(fs, ".")), linkErr(err, oldname, newname) && errIs(err, hackpadfs.ErrPermission) && memSame(fs))
+//@   ensures "root" [C03] implies(rnValid(oldname, newname) && oldname == "." && newname != ".", linkErr(err, oldname, newname) && memSame(fs))
 //@   ensures "missing-source" [C01 C05] implies(rnValid(oldname, newname) && !old(kvHas(fs, oldname)), linkErr(err, oldname, newname) && errIs(err, hackpadfs.ErrNotExist) && memSame(fs))
 //@   ensures "same-file" [C01] implies(rnValid(oldname, newname) && old(rnSrcFile(fs, oldname)) && oldname == newname, err == nil && memSame(fs))
 //@   ensures "dest-is-dir" [C01 C03 C05] implies(rnValid(oldname, newname) && old(kvHas(fs, oldname)) && old(kvHas(fs, newname)) && old(memIsDir(fs, newname)) && !(oldname == newname && !old(memIsDir(fs, oldname))),
 //@                     linkErr(err, oldname, newname) && errIs(err, hackpadfs.ErrExist) && memSame(fs))
-//@   ensures "into-subtree" [C01 C03 C05] implies(rnValid(oldname, newname) && old(rnSrcDir(fs, oldname)) && !old(kvHas(fs, newname)) && hasPrefix(newname, oldname + "/"),
+//@   ensures "into-subtree" [C01 C03 C05] implies(rnValid(oldname, newname) && oldname != "." && old(rnSrcDir(fs, oldname)) && !old(kvHas(fs, newname)) && hasPrefix(newname, oldname + "/"),
 //@                     linkErr(err, oldname, newname) && errIs(err, hackpadfs.ErrInvalid) && memSame(fs))
-//@   ensures "no-parent" [C01 C03 C05] implies(rnValid(oldname, newname) && old(kvHas(fs, oldname)) && oldname != newname && !old(kvHas(fs, newname)) && !hasPrefix(newname, oldname + "/") && !old(kvHas(fs, pdir(newname))),
+//@   ensures "no-parent" [C01 C03 C05] implies(rnValid(oldname, newname) && oldname != "." && old(kvHas(fs, oldname)) && oldname != newname && !old(kvHas(fs, newname)) && !hasPrefix(newname, oldname + "/") && !old(kvHas(fs, pdir(newname))),
 //@                     linkErr(err, oldname, newname) && errIs(err, hackpadfs.ErrNotExist) && memSame(fs))
-//@   ensures "parent-not-dir" [C01 C03 C05] implies(rnValid(oldname, newname) && old(kvHas(fs, oldname)) && oldname != newname && !(old(kvHas(fs, newname)) && old(memIsDir(fs, newname))) &&
+//@   ensures "parent-not-dir" [C01 C03 C05] implies(rnValid(oldname, newname) && oldname != "." && old(kvHas(fs, oldname)) && oldname != newname && !(old(kvHas(fs, newname)) && old(memIsDir(fs, newname))) &&
 //@                     !(old(memIsDir(fs, oldname)) && (old(kvHas(fs, newname)) || hasPrefix(newname, oldname + "/"))) && old(kvHas(fs, pdir(newname))) && !old(memIsDir(fs, pdir(newname))),
 //@                     linkErr(err, oldname, newname) && errIs(err, hackpadfs.ErrNotDir) && memSame(fs))
-//@   ensures "file-moved" [C01 C03] implies(rnValid(oldname, newname) && old(rnSrcFile(fs, oldname)) && oldname != newname && !(old(kvHas(fs, newname)) && old(memIsDir(fs, newname))) && old(rnDestParentOK(fs, newname)),
+//@   ensures "file-moved" [C01 C03] implies(rnValid(oldname, newname) && oldname != "." && old(rnSrcFile(fs, oldname)) && oldname != newname && !(old(kvHas(fs, newname)) && old(memIsDir(fs, newname))) && old(rnDestParentOK(fs, newname)),
 //@                     err == nil && !kvHas(fs, oldname) && kvHas(fs, newname) && memSameExcept2(fs, oldname, newname) && isType(kvRec(fs, newname), mem.fileRecord) &&
 //@                     memRec(fs, newname).mode == old(memRec(fs, oldname).mode) && memRec(fs, newname).data == old(memRec(fs, oldname).data) && memRec(fs, newname).modTime == old(memRec(fs, oldname).modTime))
 //@   ensures "tree-file" [C03] implies(old(treeInv(fs)) && !old(rnSrcDir(fs, oldname)), treeInv(fs))
